@@ -453,7 +453,7 @@ def run_case(case, rec):
     for lab in labels:
         deep = lab in reached
         rec.case(case, nontrivial=({"fam": T.fam, "prot": T.prot, "val": case["base"].get("validator"),
-                                    "part": part, "lab": list(lab)} if deep else None), sample=False,
+                                    "part": part, "lab": list(lab)} if deep else None),
                  classes=["%s:%s:%s" % (part, lab[0], lab[1].split(":")[0]),
                           "reached-deserialiser:%s" % deep])
     rec.case(case, failures=fails, classes=["fam:" + T.fam, "part:" + part])
